@@ -65,11 +65,11 @@ func init() {
 		Level: "exploration",
 		Rule: "one case = one load of one input under one option vector (all byte strings over per-format alphabets up to a length bound, in memory via DATA::() and file backed; generated large files), " +
 			"or one call of one built-in function (scalar, aggregate, analytic form) on one argument tuple of the boundary alphabet, or one clause/statement template on one argument tuple, " +
-			"or one statement under one file-system condition; enumerated without repetition. non-trivial = load produced a table with at least one record (rectangularity and last-column selection are checked on it) / " +
+			"or one statement under one file-system condition, or one call with a length / precision / width argument of 2^32 or more (family huge); enumerated without repetition. non-trivial = load produced a table with at least one record (rectangularity and last-column selection are checked on it) / " +
 			"the function call got past argument counting / the statement parsed / every file-system case",
 		Assume: []string{
 			"in-process csvq (lib/query) stands for the CLI: the exit code is computed like lib/cli/app.go Exit() does (query.Error.Code(), else 1)",
-			"children run with RLIMIT_AS = 4 GiB (3 GiB while a stalled case is examined alone); integers above 1e6 are not passed where the manual defines an output length or precision (LPAD/RPAD len, NUMBER_FORMAT/ROUND/CEIL/FLOOR place)",
+			"children run with RLIMIT_AS = 4 GiB (3 GiB while a stalled case is examined alone); integers between 1e6 and 2^32 are not passed where the manual defines an output length or precision (LPAD/RPAD len, NUMBER_FORMAT/ROUND/CEIL/FLOOR place, FORMAT width/precision): whether such a request is served is a matter of resources; 2^32 and more (family huge) cannot be served within the address space and must be refused",
 			"non-termination = a case that stalls the enumeration (4 CPU-seconds without a progress record) and then, alone in a fresh process, burns 30 CPU-seconds (or sleeps 30 s with every thread blocked) without ending; TZ=UTC; no fault injection, no unreadable/read-only files (the harness runs as root)",
 			"documented terminations: command.md 'Return Code' (0,1,2,4,8,16,32,64) and a non-empty message that is not csvq's '[Fatal Error]' report",
 		},
